@@ -1056,6 +1056,9 @@ class _AsyncConnectionWrapper:
                 self.q_expected_select.append((ts_step, num_msgs))
                 self.push_selection()
 
+                # The same received timestamp may lie in the future of the next queued step as well.
+                self.push_expected_nonblocking()
+
     def push_expected_blocking(self):
         assert self.connection.blocking, "This function should only be called for blocking inputs."
         has_ts_next_step = len(self.q_ts_next_step) > 0
@@ -1126,6 +1129,9 @@ class _AsyncConnectionWrapper:
 
             # Push push_phase_shift (must be called from node thread)
             self.input_node._submit(self.input_node.push_phase_shift)
+
+            # The same event may have enabled the next expected count as well (e.g. one that expects zero messages).
+            self.push_ts_max()
 
     def push_ts_input(self, msg, header: base.Header):
         # WALL_CLOCK: called by input.push_input --> msg: actual message
@@ -1280,6 +1286,9 @@ class _AsyncConnectionWrapper:
 
                 # Push step (must be called from node thread)
                 self.input_node._submit(self.input_node.push_step)
+
+                # The same event may have enabled the next expected selection as well (e.g. one that expects zero messages).
+                self.push_selection()
 
 
 def update_input_state(input_state: base.InputState, seq: int, ts_sent: float, ts_recv: float, data: Any) -> base.InputState:
